@@ -1,8 +1,14 @@
 (* C07 -- Permissions: blacklist beats whitelist and every gated action is enforced.
-   Only statements (closed by lemmas of Proofs/Perm.v) and their assumptions.  Statements that the
-   faithful model of the unchanged tree violates are kept visible next to their [_refuted] witness
-   and the strongest version that holds ([_partial]). *)
+   Only statements (closed by lemmas of Proofs/Perm.v) and their assumptions.
+   The model has four variation points ([cfg]: effective permission of layer2's bond waiver, whether
+   ClaimCouncilor writes the permission index, whether InitGenesis re-imports role blacklists, whether
+   the recovery rotation is repaired).  The translator gen_gates reads them off the working tree
+   ([tree_cfg] below, from Gen/Gates.v), so the model follows the tree before and after a repair is
+   committed.  For each variation point the full-strength statement is proved under the repaired
+   variant and refuted (with a witness replayed on the real code) under the unrepaired one. *)
 From Sekai Require Import Base.Prelude Model.Perm Model.C07Check Proofs.Perm Gen.Gates.
+
+Definition tree_cfg : cfg := mkCfg Gates.tree_dapp_perm Gates.tree_claim_indexed Gates.tree_import_role_bl Gates.tree_rotate_fixed.
 
 (* An actor holds a permission exactly when it is whitelisted directly or through an assigned role
    and blacklisted neither directly nor through an assigned role -- all configurations. *)
@@ -18,27 +24,49 @@ Theorem C07_blacklist_beats_whitelist : forall s a p,
 Proof. exact blacklist_beats_whitelist. Qed.
 Print Assumptions C07_blacklist_beats_whitelist.
 
-(* Every history of edits keeps the three lookup indexes equal to the sets recomputed from the
-   actor and role records.  Full statement: refuted on the unchanged tree ... *)
-Theorem C07_indexes_refine_refuted : exists ops, ~ inv (run empty_state ops).
+(* Every history of edits (by message, by proposal, by genesis export/import, by rotation) keeps the
+   three lookup indexes equal to the sets recomputed from the actor and role records.
+   For every variant: along histories that avoid the operations refuted for that variant. *)
+Theorem C07_indexes_refine_guarded : forall c ops s, inv s -> safe_run c s ops -> inv (run c s ops).
+Proof. exact indexes_refine_guarded. Qed.
+Print Assumptions C07_indexes_refine_guarded.
+(* Repaired claim and rotation: all histories; the one remaining condition is that a rotation does
+   not target an address that already has an actor record (refuted otherwise, next theorem). *)
+Theorem C07_indexes_refine_repaired : forall c, claim_indexed c = true -> rotate_fixed c = true ->
+  forall ops s, inv s -> fresh_targets c s ops -> inv (run c s ops).
+Proof. exact indexes_refine_repaired. Qed.
+Print Assumptions C07_indexes_refine_repaired.
+Theorem C07_rotation_overwrite_refuted : forall c, exists ops, ~ inv (run c empty_state ops).
+Proof. exact rotation_overwrite_refuted. Qed.
+Print Assumptions C07_rotation_overwrite_refuted.
+(* Unrepaired claim: refuted; the guard excludes exactly the claims that break the index. *)
+Theorem C07_indexes_refine_refuted : forall c, claim_indexed c = false -> exists ops, ~ inv (run c empty_state ops).
 Proof. exact indexes_refine_refuted. Qed.
 Print Assumptions C07_indexes_refine_refuted.
-(* ... it holds along every history without the three refuted operations (a councilor claim that
-   newly whitelists, a rotation of an address that has an actor record) and in which each genesis
-   import rebuilt consistent indexes (decided on every real import by the "index-*" clauses). *)
-Theorem C07_indexes_refine_partial : forall ops s, inv s -> safe_run s ops -> inv (run s ops).
-Proof. exact indexes_refine_partial. Qed.
-Print Assumptions C07_indexes_refine_partial.
+Theorem C07_claim_councilor_breaks_index : forall c s a, claim_indexed c = false -> inv s -> claim_whitelists s a = true ->
+  exists s', step c s (OClaimCouncilor a) = Ok s' /\ ~ inv s'.
+Proof. exact claim_breaks_index. Qed.
+Print Assumptions C07_claim_councilor_breaks_index.
 Theorem C07_invariant_is_index_equality : forall s, inv s ->
   (forall p a, pmem (p, a) (idx_pa s) = true <-> wl_direct s a p) /\
   (forall r a, pmem (r, a) (idx_ra s) = true <-> has_role s a r) /\
   (forall p r, pmem (p, r) (idx_pr s) = true <-> wl_role s r p).
 Proof. exact inv_sets. Qed.
 Print Assumptions C07_invariant_is_index_equality.
-Theorem C07_claim_councilor_breaks_index : forall s a, inv s -> claim_whitelists s a = true ->
-  exists s', step s (OClaimCouncilor a) = Ok s' /\ ~ inv s'.
-Proof. exact claim_breaks_index. Qed.
-Print Assumptions C07_claim_councilor_breaks_index.
+
+(* Genesis: InitGenesis applied to an export rebuilds records and consistent indexes (both variants;
+   the import's index writes are modelled and proved, no longer a run-time hypothesis) ... *)
+Theorem C07_import_rebuilds_indexes : forall b s, inv s -> inv (export_import b s).
+Proof. exact import_inv. Qed.
+Print Assumptions C07_import_rebuilds_indexes.
+(* ... and, when role blacklists are re-imported, reproduces who holds what -- full strength *)
+Theorem C07_import_preserves_holdings : forall s a p, inv s -> check_allowed (export_import true s) a p = check_allowed s a p.
+Proof. exact import_preserves_holdings. Qed.
+Print Assumptions C07_import_preserves_holdings.
+Theorem C07_import_preserves_holdings_refuted : exists s a p,
+  inv s /\ check_allowed s a p = false /\ check_allowed (export_import false s) a p = true.
+Proof. exact import_preserves_holdings_refuted. Qed.
+Print Assumptions C07_import_preserves_holdings_refuted.
 
 (* The eligible voters of a permission are exactly the actors whose own or role whitelist carries it
    (each once) -- whenever the indexes are right; refuted for the reachable states where they are not. *)
@@ -46,48 +74,59 @@ Theorem C07_voters_exact : forall s p, inv s ->
   exists l, voters s p = Ok l /\ NoDup l /\ forall a, In a l <-> (wl_direct s a p \/ exists r, has_role s a r /\ wl_role s r p).
 Proof. exact voters_exact. Qed.
 Print Assumptions C07_voters_exact.
-Theorem C07_voters_exact_refuted : exists ops a p,
-  (wl_direct (run empty_state ops) a p \/ exists r, has_role (run empty_state ops) a r /\ wl_role (run empty_state ops) r p)
-  /\ voters (run empty_state ops) p = Ok [].
+Theorem C07_voters_exact_refuted : forall c, claim_indexed c = false -> exists ops a p,
+  (wl_direct (run c empty_state ops) a p \/ exists r, has_role (run c empty_state ops) a r /\ wl_role (run c empty_state ops) r p)
+  /\ voters (run c empty_state ops) p = Ok [].
 Proof. exact voters_exact_refuted. Qed.
 Print Assumptions C07_voters_exact_refuted.
 
 (* Every permission-gated message succeeds only for an actor that holds the permission its handler
-   checks, at that moment (all message kinds of the model; all states). *)
-Theorem C07_gated_only_with_permission : forall s o s', step s o = Ok s' -> msg_gate_holds s o.
+   checks, at that moment (all message kinds of the model; all states; all variants). *)
+Theorem C07_gated_only_with_permission : forall c s o s', step c s o = Ok s' -> msg_gate_holds c s o.
 Proof. exact gated_only_with_permission. Qed.
 Print Assumptions C07_gated_only_with_permission.
-(* ... and the checked permission is the intended one, except layer2's bond waiver *)
-Theorem C07_gate_intended_partial : forall s k x s', k <> GDapp -> step s (OGate k x) = Ok s' -> holds s x (gate_perm_intended k).
-Proof. exact gate_intended_partial. Qed.
-Print Assumptions C07_gate_intended_partial.
-Theorem C07_gate_intended_refuted : exists ops x s',
-  step (run empty_state ops) (OGate GDapp x) = Ok s' /\ ~ holds (run empty_state ops) x (gate_perm_intended GDapp).
+(* ... and in the working tree the checked permission is the intended one for every gated message of
+   the model, layer2's bond waiver included (full strength; the proof reads the effective permission
+   off the regenerated table, so a wrapper that checks something else breaks this obligation) *)
+Theorem C07_gate_intended : forall s k x s', step tree_cfg s (OGate k x) = Ok s' -> holds s x (gate_perm_intended k).
+Proof. exact (gate_intended tree_cfg eq_refl). Qed.
+Print Assumptions C07_gate_intended.
+Theorem C07_gate_intended_refuted_for_basket_wrapper : forall c, dapp_perm c = PermHandleBasketEmergency -> exists ops x s',
+  step c (run c empty_state ops) (OGate GDapp x) = Ok s' /\ ~ holds (run c empty_state ops) x (gate_perm_intended GDapp).
 Proof. exact gate_intended_refuted. Qed.
-Print Assumptions C07_gate_intended_refuted.
+Print Assumptions C07_gate_intended_refuted_for_basket_wrapper.
 
-(* Address rotation leaves nothing with the old address: refuted; holds for actors without roles. *)
-Theorem C07_rotation_clears_old_address_refuted : exists ops a b p,
-  last ops OExportImport = ORotate a b /\ a <> b /\ check_allowed (run empty_state ops) a p = true /\ ~ inv (run empty_state ops).
+(* Address rotation: the repaired rotation leaves nothing with the old address and moves the holdings *)
+Theorem C07_rotation_repaired_old_address : forall s a b p, a <> b -> lookup a (actors s) <> None ->
+  check_allowed (rotate_repaired s a b) a p = false.
+Proof. exact rotation_repaired_old_address. Qed.
+Print Assumptions C07_rotation_repaired_old_address.
+Theorem C07_rotation_repaired_new_address : forall s a b p,
+  check_allowed (rotate_repaired s a b) b p =
+  match lookup a (actors s) with Some _ => check_allowed s a p | None => check_allowed s b p end.
+Proof. exact rotation_repaired_new_address. Qed.
+Print Assumptions C07_rotation_repaired_new_address.
+(* the unrepaired one: refuted; holds for actors without roles *)
+Theorem C07_rotation_clears_old_address_refuted : forall c, rotate_fixed c = false -> exists ops a b p,
+  last ops OExportImport = ORotate a b /\ a <> b /\ check_allowed (run c empty_state ops) a p = true /\ ~ inv (run c empty_state ops).
 Proof. exact rotation_clears_old_address_refuted. Qed.
 Print Assumptions C07_rotation_clears_old_address_refuted.
 Theorem C07_rotation_clears_old_address_partial : forall s a b act p,
-  lookup a (actors s) = Some act -> a_roles act = [] -> a <> b -> check_allowed (rotate s a b) a p = false.
+  lookup a (actors s) = Some act -> a_roles act = [] -> a <> b -> check_allowed (rotate_buggy s a b) a p = false.
 Proof. exact rotation_clears_old_address_partial. Qed.
 Print Assumptions C07_rotation_clears_old_address_partial.
 
-(* A genesis export / import reproduces who holds what: refuted (role blacklists are dropped). *)
-Theorem C07_import_preserves_holdings_refuted : exists ops a p,
-  let s := run empty_state ops in inv s /\ check_allowed s a p = false /\ check_allowed (export_import s) a p = true.
-Proof. exact import_preserves_holdings_refuted. Qed.
-Print Assumptions C07_import_preserves_holdings_refuted.
-
-(* The spec checker accepts the model: its "allow-*" and "gate" clauses compute the model's decision
-   procedure from the dumped records. *)
+(* The spec checker accepts the model: every state clause ("allow-*", "index-*", "voters-*") is empty
+   on the observation of any state satisfying the invariant -- hence on every state of a guarded model
+   run (C07_indexes_refine_guarded) -- and the "gate" clause accepts every step the model accepts. *)
 Theorem C07_chk_sound_allow : forall ua up s, allow_disc up (obs_of ua up s) = [].
 Proof. exact chk_sound_allow. Qed.
 Print Assumptions C07_chk_sound_allow.
-Theorem C07_chk_sound_gate : forall ua up s o s', step s o = Ok s' -> (forall x, o <> OGate GDapp x) ->
+Theorem C07_chk_sound_state : forall ua up s who, inv s -> state_clauses up who None (obs_of ua up s) = [].
+Proof. exact chk_sound_state. Qed.
+Print Assumptions C07_chk_sound_state.
+Theorem C07_chk_sound_gate : forall c ua up s o s', step c s o = Ok s' ->
+  (dapp_perm c = PermCreateDappProposalWithoutBond \/ forall x, o <> OGate GDapp x) ->
   gate_spec (obs_of ua up s) o = true.
 Proof. exact chk_sound_gate. Qed.
 Print Assumptions C07_chk_sound_gate.
@@ -171,9 +210,10 @@ Proof. split; [|split]; [apply incl_strb_sound; vm_compute; reflexivity ..|refle
 Print Assumptions C07_gates_complete.
 
 (* non-vacuity: a reachable state with roles, whitelists and blacklists satisfying the invariant,
-   on which blacklist beats whitelist both ways and the voter set is the expected one *)
+   on which blacklist beats whitelist both ways and the voter set is the expected one; the repaired
+   variant keeps the invariant through an export / import *)
 Example C07_nonvacuous :
-  let s := run empty_state (removelast example_ops) in
+  let s := run cfg_pinned empty_state (removelast example_ops) in
   inv s /\ check_allowed s 1 1 = true /\ check_allowed s 1 17 = false /\ check_allowed s 2 17 = true /\ check_allowed s 2 66 = false
-  /\ voters s 17 = Ok [2; 1].
+  /\ voters s 17 = Ok [2; 1] /\ inv (run cfg_repaired empty_state example_ops).
 Proof. exact example_state_inv. Qed.
